@@ -1364,7 +1364,7 @@ impl Constraint {
 
                 row0.extend(partial_derivatives);
             }
-            Constraint::VerticalPointLineDistance(point, line, _distance) => {
+            Constraint::VerticalPointLineDistance(point, line, distance) => {
                 // See notebook:
                 // https://github.com/KittyCAD/ezpz-sympy/blob/main/main.py
                 let id_ax = point.id_x();
@@ -1390,9 +1390,9 @@ impl Constraint {
                 // Partial derivatives for the scaled residual:
                 let dax = -dy;
                 let day = dx;
-                let dpx = qy - ay;
+                let dpx = qy - ay + distance;
                 let dpy = ax - qx;
-                let dqx = ay - py;
+                let dqx = ay - py - distance;
                 let dqy = -(ax - px);
                 row0.extend([
                     JacobianVar {
